@@ -57,6 +57,24 @@ class Chooser:
         return [(l, k) for l, k in zip(self.labels, self.trace) if k]
 
 
+class PresetChooser(Chooser):
+    """Answers the labelled choice points from a dictionary (label -> index), 0 elsewhere; used for canaries
+    so that they do not depend on the position of a choice point in the trace."""
+
+    def __init__(self, preset):
+        super().__init__(())
+        self.preset = dict(preset)
+
+    def choose(self, label, options, free=False):
+        options = list(options)
+        k = self.preset.get(label, 0)
+        self.trace.append(k); self.sizes.append(len(options)); self.free.append(bool(free))
+        self.labels.append(label)
+        if k and not free:
+            self.cost += 1
+        return options[k]
+
+
 class LevelEnumerator:
     """Enumerates the traces of one scenario by increasing deviation count."""
 
